@@ -10,6 +10,10 @@ against the Lean model `SleapVerif.Oks` run through `drivers/C15.lean`.
   (IoU / area fall back to 1e-12 relative when float rounding is involved);
 * OKS values: the generic model instantiated at `Float` with `Float.exp`, compared with
   |Δ| ≤ 1e-9·max(1,|v|) (both sides are float64; observed noise ≤ 1e-15), NaN pattern exactly;
+  float32-stored and far-translated poses go through `oksr` (everything up to the argument of `exp`
+  exactly at `Rat` on the exact dyadic inputs; 1e-6 for float32 inputs, see notes/C15.md);
+* call histories: `compute_oks` is called three times with the same argument objects; the arguments
+  must be bit-identical afterwards and the results equal (the model is a pure function, `oks_pure`);
 * `match_instances` is checked against the model's matching loop run at `Rat` on the OKS matrix
   that the real `compute_oks` returns for the whole frame (floats are dyadic rationals, so the
   model's comparisons are bit-faithful); the OKS it reports per pair must equal that matrix entry.
@@ -57,6 +61,10 @@ THEOREMS = [
     "SleapVerif.C15.euclid_eq_zero_iff",
     "SleapVerif.C15.euclid_symm",
     "SleapVerif.C15.euclid_triangle",
+    "SleapVerif.C15.ks_eq_ksArg",
+    "SleapVerif.C15.ksArg_nonpos_and_translation",
+    "SleapVerif.C15.oks_pure",
+    "SleapVerif.C15.match_nan_row_is_false_negative",
 ]
 
 EPS = Fraction(2) ** -52  # np.spacing(1)
@@ -143,8 +151,8 @@ def gen_pred(rng, gts, n_nodes):
     return gen_instance(rng, n_nodes)
 
 
-def oks_line(coco, sds, gts, scales, prs):
-    return ("oks " + ("1" if coco else "0") + " " + rat(EPS) + " " + lst(sds, rat) + " "
+def oks_line(coco, sds, gts, scales, prs, op="oks"):
+    return (op + " " + ("1" if coco else "0") + " " + rat(EPS) + " " + lst(sds, rat) + " "
             + lst(list(zip(scales, gts)), lambda sg: rat(sg[0]) + " " + fpts(sg[1])) + " "
             + lst(prs, fpts))
 
@@ -227,10 +235,20 @@ def main(chk: Check):
         Pm = np.array(prs, dtype=np.float64).reshape(len(prs), n_nodes, 2)
         return compute_oks_any(G, Pm, scale=scale, stddev=stddev, use_cocoeval=coco)
 
-    def oks_property_oracle(gts, prs, scale, stddev, coco, n_nodes, case):
-        """independent restatement of the OKS clauses on the implementation's output"""
-        G = np.array(gts, dtype=np.float64).reshape(len(gts), n_nodes, 2)
-        Pm = np.array(prs, dtype=np.float64).reshape(len(prs), n_nodes, 2)
+    def oks_property_oracle(gts, prs, scale, stddev, coco, n_nodes, case, dtype=np.float64, offset=(0.0, 0.0)):
+        """independent restatement of the OKS clauses on the implementation's output.  `dtype`/`offset`:
+        the same poses stored as float32/float64 and translated by a large common offset; offsets are
+        integers small enough that every translated k/16-lattice coordinate is exactly representable in
+        `dtype`, so translating is an exact operation on the inputs and the displacement the code forms
+        first is exact too: results must agree to rounding of the later float64 steps (1e-9), for
+        float32 inputs to the float32 rounding of d2 and of the bbox area (|Δexp(-x)| <= x e^-x 2^-22 < 1e-6)."""
+        ttol = 1e-9 if dtype == np.float64 else 1e-6
+        off = np.array(offset, dtype=np.float64)
+        G0 = np.array(gts, dtype=np.float64).reshape(len(gts), n_nodes, 2)
+        P0 = np.array(prs, dtype=np.float64).reshape(len(prs), n_nodes, 2)
+        G = (G0 + off).astype(dtype)
+        Pm = (P0 + off).astype(dtype)
+        case = dict(case, dtype=np.dtype(dtype).name, offset=list(offset))
         f = lambda g, p, sc=scale: compute_oks_any(g, p, scale=sc, stddev=stddev, use_cocoeval=coco)
         base = f(G, Pm)
         visg = ~np.isnan(G).any(-1)
@@ -274,12 +292,24 @@ def main(chk: Check):
                         continue
                     dirn = Pm[j, k] - G[i, k]
                     P2 = Pm.copy(); P2[j, k] = G[i, k] + dirn * 1.5 + (0.25 if not dirn.any() else 0)
-                    if f(G, P2)[i, j] > base[i, j] + 1e-12:
+                    if f(G, P2)[i, j] > base[i, j] + (1e-12 if dtype == np.float64 else 1e-7):
                         bad.append(("antitone", i, j, k))
             # translation of both poses
             t = np.array([q16(rng, -32, 32), q16(rng, -32, 32)])
-            if not np.allclose(f(G + t, Pm + t), base, atol=1e-9, equal_nan=True):
-                bad.append(("translation", t.tolist()))
+            # translations are compared only when they are exact operations on the stored inputs (every
+            # translated coordinate representable in `dtype`; not so e.g. for the 1/256-lattice "tiny"
+            # poses at 65536 px in float32) - otherwise the inputs themselves differ by rounding
+            exact = lambda a64: np.array_equal(a64.astype(dtype).astype(np.float64), a64, equal_nan=True)
+            stored_exact = exact(G0 + off) and exact(P0 + off)
+            if stored_exact and exact(G0 + off + t) and exact(P0 + off + t):
+                if not np.allclose(f((G + t).astype(dtype), (Pm + t).astype(dtype)), base, atol=ttol, equal_nan=True):
+                    bad.append(("translation", t.tolist()))
+            else:
+                chk.tag("translation_not_exact_skipped")
+            if any(offset) and stored_exact and exact(G0) and exact(P0):
+                at0 = f(G0.astype(dtype), P0.astype(dtype))
+                if not np.allclose(at0, base, atol=ttol, equal_nan=True):
+                    bad.append(("translation by the large common offset", at0.tolist(), base.tolist()))
             # instance reordering
             pg = list(range(len(gts))); rng.shuffle(pg)
             pp = list(range(len(prs))); rng.shuffle(pp)
@@ -290,13 +320,61 @@ def main(chk: Check):
             chk.fail("OKS contract violated: " + str(b[0]), case, observed=b, signatures=[])
         return not bad
 
+    def big_offset(dtype):
+        """integer offsets at which the k/16 lattice (|coords| < 128) is still exact in `dtype`"""
+        if dtype == np.float32:
+            return rng.choice([(1024.0, 768.0), (4096.0, 2048.0), (65536.0, 4096.0), (1000.0, 3000.0)])
+        return rng.choice([(1024.0, 768.0), (1e5, 3e4), (2.0 ** 27, 2.0 ** 26), (1e8, 1e8), (1e8, 0.0)])
+
+    def oks_history_oracle(gts, prs, scale, stddev, coco, n_nodes, case):
+        """`compute_oks` must be a pure function: the same argument objects are passed three times;
+        every argument must be bit-identical afterwards and every result equal to the first."""
+        G = np.array(gts, dtype=np.float64).reshape(len(gts), n_nodes, 2)
+        Pm = np.array(prs, dtype=np.float64).reshape(len(prs), n_nodes, 2)
+        args = {"points_gt": G, "points_pr": Pm}
+        if scale is not None and not np.isscalar(scale):
+            args["scale"] = scale
+        if not np.isscalar(stddev):
+            args["stddev"] = stddev
+        before = {k: v.copy() for k, v in args.items()}
+        outs = []
+        for _ in range(3):
+            r = call(compute_oks_any, G, Pm, scale=scale, stddev=stddev, use_cocoeval=coco)
+            outs.append(r)
+        bad = []
+        for k, v in args.items():
+            if v.dtype != before[k].dtype or not np.array_equal(v, before[k], equal_nan=True):
+                bad.append((f"argument `{k}` was modified by the call", before[k].tolist(), v.tolist()))
+        if all(o[0] == "ok" for o in outs):
+            for i in (1, 2):
+                if not np.array_equal(outs[0][1], outs[i][1], equal_nan=True):
+                    bad.append((f"call {i + 1} with the same arguments returned a different result",
+                                outs[0][1].tolist(), outs[i][1].tolist()))
+                    break
+        for b in bad:
+            chk.fail("compute_oks is not a pure function: " + b[0], case, observed=b[1:], signatures=[])
+        # leave the caller's arrays as they were, whatever happened
+        for k, v in args.items():
+            v[...] = before[k]
+        return not bad
+
     n_oks = chk.n(260, 4000)
     lines, metas = [], []
     for it in range(n_oks):
         n_nodes = rng.choice([1, 2, 3, 3, 4, 5, 6, 9])
         n_gt = rng.choice([0, 1, 1, 2, 2, 3, 4])
         n_pr = rng.choice([0, 1, 1, 2, 3, 4])
-        gts, tags = [], []
+        # storage variant: float64 at small coordinates (default), or float32 / float64 poses translated
+        # to ordinary image coordinates (1e3..6e4 px) / far from the origin (up to 1e8) - exactly
+        u = rng.random()
+        if u < 0.6:
+            dt, off = np.float64, (0.0, 0.0)
+        elif u < 0.7:
+            dt, off = np.float32, (0.0, 0.0)
+        else:
+            dt = rng.choice([np.float32, np.float64])
+            off = big_offset(dt)
+        gts, tags = [], [np.dtype(dt).name, "offset:" + ("0" if not any(off) else f"1e{len(str(int(max(off)))) - 1}")]
         for _ in range(n_gt):
             g, k = nan_pattern(rng, gen_instance(rng, n_nodes))
             gts.append(g); tags.append("gtnan:" + k)
@@ -320,13 +398,18 @@ def main(chk: Check):
             sds = [rng.choice([0.025, 0.05, 0.072, 0.107, 0.25]) for _ in range(n_nodes)]
             stddev = np.array(sds, dtype=np.float64)
         tags += ["scale:" + smode, "coco" if coco else "paper", f"gt{n_gt}", f"pr{n_pr}"]
-        lines.append(oks_line(coco, sds, gts, scales, prs))
-        metas.append((gts, prs, scale, stddev, coco, n_nodes, tags, smode))
+        offa = np.array(off)
+        garr = [(g + offa).astype(dt) for g in gts]
+        parr = [(p_ + offa).astype(dt) for p_ in prs]
+        exact_op = dt != np.float64 or any(off)
+        lines.append(oks_line(coco, sds, garr, scales, parr, op="oksr" if exact_op else "oks"))
+        metas.append((gts, prs, scale, stddev, coco, n_nodes, tags, smode, dt, off, garr, parr))
         # exact sub-quantities
         for g in gts:
             lines.append("area " + fpts(g)); metas.append(("area", g))
     outs = run_driver("C15.lean", lines)
-    worst = 0.0
+    worst = worst32 = 0.0
+    idx = -1
     for line, meta, out in zip(lines, metas, outs):
         if meta[0] == "area":
             g = meta[1]
@@ -339,11 +422,19 @@ def main(chk: Check):
             if not good:
                 chk.disagree("compute_instance_area vs Oks.area", {"points": g.tolist()}, str(impl), str(model))
             continue
-        gts, prs, scale, stddev, coco, n_nodes, tags, smode = meta
+        gts, prs, scale, stddev, coco, n_nodes, tags, smode, dt, off, garr, parr = meta
+        idx += 1
         case = {"gt": [g.tolist() for g in gts], "pr": [p.tolist() for p in prs], "scale": smode and (
             None if scale is None else (scale if np.isscalar(scale) else scale.tolist())),
-            "stddev": stddev if np.isscalar(stddev) else stddev.tolist(), "use_cocoeval": coco}
-        r = call(oks_impl, gts, prs, scale, stddev, coco, n_nodes)
+            "stddev": stddev if np.isscalar(stddev) else stddev.tolist(), "use_cocoeval": coco,
+            "dtype": np.dtype(dt).name, "offset": list(off)}
+        # call history first (fresh argument objects): compute_oks must not touch its arguments
+        if not np.isscalar(stddev) or (scale is not None and not np.isscalar(scale)) or idx % 5 == 0:
+            oks_history_oracle(gts, prs, scale, stddev, coco, n_nodes, case)
+        tol = TOL if dt == np.float64 else 1e-6   # float32 inputs: d2 and the bbox area are rounded to float32
+        r = call(lambda: compute_oks_any(np.array(garr, dtype=dt).reshape(len(garr), n_nodes, 2),
+                                         np.array(parr, dtype=dt).reshape(len(parr), n_nodes, 2),
+                                         scale=scale, stddev=stddev, use_cocoeval=coco))
         model = parse_oks(out)
         if state.get("last_direct_raise") and out.split()[0] != "raise":
             chk.disagree("compute_oks raised IndexError where the as-is model does not", case, "raise", out.split()[0])
@@ -354,20 +445,26 @@ def main(chk: Check):
             continue
         impl = [[nan2none(v) for v in row] for row in r[1]]
         same = (len(impl) == len(model)) and all(
-            len(a) == len(b) and all(close(x, y) for x, y in zip(a, b)) for a, b in zip(impl, model))
+            len(a) == len(b) and all(close(x, y, tol) for x, y in zip(a, b)) for a, b in zip(impl, model))
         for a, b in zip(impl, model):
             for x, y in zip(a, b):
-                if x is not None and y is not None:
+                if x is not None and y is not None and dt == np.float64:
                     worst = max(worst, abs(x - y))
+                elif x is not None and y is not None:
+                    worst32 = max(worst32, abs(x - y))
         nontrivial = len(gts) and len(prs)
         chk.case(("oks", line) if nontrivial else None,
-                 sample={"op": "compute_oks", **case, "impl": impl} if nontrivial and it % 40 == 0 else None, tags=tags)
+                 sample={"op": "compute_oks", **case, "impl": impl} if nontrivial and idx % 40 == 0 else None, tags=tags)
         if not same:
-            chk.disagree("compute_oks vs Oks.oksMatrix@Float", case, impl, model)
-        # the oracle is cheap: run it on every 4th case and on every disagreement
-        if not same or it % 4 == 0:
+            chk.disagree("compute_oks vs Oks.oksMatrix (" + line.split()[0] + ")", case, impl, model)
+        # the oracle is cheap: every 4th case and every disagreement at the stored dtype/offset; every
+        # translated / float32 case additionally at its own storage variant
+        if not same or idx % 4 == 0:
             oks_property_oracle(gts, prs, scale, stddev, coco, n_nodes, case)
+        if dt != np.float64 or any(off):
+            oks_property_oracle(gts, prs, scale, stddev, coco, n_nodes, case, dtype=dt, offset=off)
     chk.extra["oks_max_abs_diff"] = worst
+    chk.extra["oks_max_abs_diff_float32_inputs"] = worst32
 
     # ================================================================== 2. match_instances
     n_match = chk.n(220, 3000)
@@ -617,12 +714,15 @@ if __name__ == "__main__":
         trusted=[
             "Lean 4 kernel + Mathlib; the hand-written model SleapVerif.Oks mirrors evaluation.py / tracking/utils.py "
             "(tied by this correspondence run, not by construction)",
-            "float64 arithmetic behaves like field arithmetic up to 1e-9 on the explored inputs (measured: oks_max_abs_diff)",
+            "float64 arithmetic behaves like field arithmetic up to 1e-9 on the explored inputs (measured: oks_max_abs_diff); "
+            "float32 inputs: up to 1e-6 (d2 and bbox area are formed in float32; measured: oks_max_abs_diff_float32_inputs)",
             "exp enters as a parameter with the Transc laws (realTransc shows they are satisfiable); Float.exp ~ np.exp",
             "scipy.optimize.linear_sum_assignment is a parameter (LsaSpec); its output is checked against the spec each run",
             "sleap_io LabeledFrame/Instance.numpy() hand the stored points to match_instances unchanged",
         ],
-        rule="seeded generator: 0-4 gt x 0-5 predictions x 1-9 nodes on the k/16 lattice, NaN patterns (point, single "
+        rule="seeded generator: 0-4 gt x 0-5 predictions x 1-9 nodes on the k/16 lattice, stored as float64 or float32, at the "
+             "origin or translated by a large common offset (1e3..6.5e4 px float32, up to 1e8 float64); call histories that "
+             "reuse the same argument objects; NaN patterns (point, single "
              "coordinate, whole instance), degenerate boxes (line, point, tiny), scale None/scalar/array/0, stddev scalar/array, "
              "both normalisations; distinct = distinct driver line with >=1 gt and >=1 prediction (oks, match) or non-empty "
              "cost matrix (greedy) or distinct box pair (iou)",
